@@ -290,7 +290,8 @@ func symConv(dst types.BasicKind, x sym) value {
 	}
 	switch dst {
 	case types.Float32, types.Float64, types.String, types.UnsafePointer:
-		panic(fmt.Sprintf("symConv: unsupported destination kind %v", dst))
+		// an engine limit, not a panic of the code under analysis
+		panic(abortPath{AbortUnmodelled, fmt.Sprintf("conversion of a symbolic integer to basic kind %v", dst)})
 	}
 	return mkVal(c.Resize(x.t, kindWidth(dst), kindSigned(x.k)), dst)
 }
